@@ -90,6 +90,30 @@ def cases(tier, seed):
             prm = dict(maxiter=r.choice([3, 10, 40]), tol=F(1, 10 ** 8), M=r.choice([2, 5, 30]), K=r.choice([1, 3]), L=r.choice([1, 2, 3]),
                        s=r.choice([1, 2, 4]), damping=F(3, 4), smoothing=int(r.random() < 0.3), replacement=int(r.random() < 0.3), areset=1)
             out.append((kc.seq_line("q%d" % len(out), "d.seq", solver, kc.side_for(r, solver), n, calls, **prm), "dseq", dict(solver=solver)))
+    # 2b. long multi-restart solves on one object (double build, bit patterns): restarted methods with short
+    #     restart lengths on convection-diffusion systems that need dozens of restarts; 3-5 calls per object with a
+    #     zero right-hand side in between (state that survives a call -- ring buffers, bases, counters -- must not
+    #     influence the next call)
+    for solver in ["lgmres", "lgmres", "lgmres", "gmres", "fgmres", "bicgstabl", "idrs", "bicgstab", "cg", "richardson"]:
+        for si in range(4 if tier == "quick" else 12):
+            n = r.choice([36, 48, 64])
+            sym = kc.sym_needed(solver)
+            rows = gen.spd_mmatrix(r, n, kind="grid") if sym else gen.convdiff(r, n)
+            D = {i: dict(rw)[i] for i, rw in enumerate(rows)}
+            pk = r.choice(["id", "diag"]) if solver != "richardson" else "diag"
+            pdata = [F(1) / D[i] for i in range(n)] if pk == "diag" else None
+            def rv(): return [F(r.randint(-8, 8), 4) for _ in range(n)]
+            f1, f2 = rv(), rv()
+            if all(v == 0 for v in f1): f1[0] = F(1)
+            if all(v == 0 for v in f2): f2[0] = F(1)
+            z = [F(0)] * n
+            order = r.choice([[f1, f2, z, f2], [f1, z, f2, f1, f2], [f1, f2, f1], [f2, f1, z, f1]])
+            calls = [kc.Sys(n, rows, pk, pdata, ff, list(z), sym) for ff in order]
+            prm = dict(maxiter=r.choice([300, 600]), tol=F(1, 10 ** 10), M=r.choice([2, 3, 4, 6, 8]), K=r.choice([1, 2, 3, 4]),
+                       L=r.choice([1, 2, 3]), s=r.choice([1, 2, 4]), damping=F(3, 4), smoothing=int(r.random() < 0.3),
+                       replacement=int(r.random() < 0.3), areset=1)
+            out.append((kc.seq_line("q%d" % len(out), "d.seq", solver, kc.side_for(r, solver), n, calls, **prm), "dseq",
+                        dict(solver=solver, long=True, M=prm["M"], K=prm["K"])))
     # 3. zero rhs / converged guess through make_solver
     for solver in kc.SOLVERS:
         for si in range(3 if tier == "quick" else 8):
@@ -127,7 +151,9 @@ def run(ctx, cases_override=None):
     fresh = ctx["run_driver"](ctx["cpp"]["krylov"], fl, timeout=TMO)
     ml = [l for l, kind, meta in cs if kind in ("seq", "lgmres-noreset") and meta["solver"] in kc.MODELLED]
     model = ctx["run_driver"](ctx["model"], ml, timeout=TMO)
-    info = dict(lgmres_noreset_differs=0, lgmres_noreset_total=0, calls_with_exception=0, calls_with_nan=0)
+    info = dict(lgmres_noreset_differs=0, lgmres_noreset_total=0, calls_with_exception=0, calls_with_nan=0,
+                long_calls=0, long_calls_with_10plus_restarts=0, lgmres_calls_more_than_K_restarts=0,
+                lgmres_calls_ring_phase_nonzero=0)
     for l, kind, meta in cs:
         cid = l.split(" ", 1)[0]
         a = impl.get(cid)
@@ -138,6 +164,17 @@ def run(ctx, cases_override=None):
         if kind in ("seq", "dseq", "lgmres-noreset"):
             b = fresh.get(cid)
             ctx["stats"]["oracle_checks"] += 1
+            if meta.get("long"):
+                for part in a.split(" ; "):
+                    pr = kc.parse_result(part)
+                    if pr is None: continue
+                    info["long_calls"] += 1
+                    per = (meta["M"] + meta["K"]) if meta["solver"] == "lgmres" else meta["M"]
+                    cycles = -(-pr[0] // per)
+                    if meta["solver"] in ("lgmres", "gmres", "fgmres") and cycles >= 10: info["long_calls_with_10plus_restarts"] += 1
+                    if meta["solver"] == "lgmres" and cycles > meta["K"]:
+                        info["lgmres_calls_more_than_K_restarts"] += 1
+                        if meta["K"] >= 2 and (cycles - meta["K"]) % meta["K"] != 0: info["lgmres_calls_ring_phase_nonzero"] += 1
             info["calls_with_exception"] += a.count("EXC")
             info["calls_with_nan"] += a.count("nan")
             if kind == "lgmres-noreset":
